@@ -58,7 +58,7 @@ Definition judge_posit (cfg : list Z) (op : Z) (args res : list Z) : verdict :=
   if Z.eqb op OP_from_uint then exact [p_of_int_f n es (int_decode false a b)] true else
   if Z.eqb op OP_to_f64 then judge_to_f64 (p_to_num n es a) res else
   if Z.eqb op OP_to_f32 then judge_to_f32 (p_to_num n es a) res else
-  if Z.eqb op OP_to_f64_rt then exact [a] true else
+  if Z.eqb op OP_to_f64_rt then (if ieee_exact 11 52 (p_to_num n es a) then exact [a] true else mkV true res false) else
   if Z.eqb op OP_to_int then    (* args: width w, bits; res: w-bit two's complement; judged only when it fits *)
     match p_to_int n es b with
     | Some z => if Z.leb (- 2^(a-1)) z && Z.ltb z (2^(a-1)) then exact [wrap a z] true else mkV true res false
